@@ -13,8 +13,9 @@ REFUSALS = ['add_hard_link:joliet-duplicate-new', 'rm_directory:joliet-is-file',
 
 
 def units(tier):
-    us = [Unit(F.Mastered, {'script': s}) for s in JOLIET_SCENARIOS]
-    us += [Unit(F.Reopened, {'script': s}) for s in JOLIET_SCENARIOS]
+    scen = JOLIET_SCENARIOS + F.random_names(tier, ['joliet', 'rr110-joliet', 'rr112-joliet-xa'], 1, 15)
+    us = [Unit(F.Mastered, {'script': s}) for s in scen]
+    us += [Unit(F.Reopened, {'script': s}) for s in scen]
     us.append(Unit(J.JolietFactory))
     for n in (1, 2, 31, 63, 64, 65, 66, 100) if tier == 'quick' else list(range(1, 80)) + [100, 128, 200]:
         us.append(Unit(N.JolietName, {'namelen': n}))
